@@ -782,6 +782,8 @@ class CategoricalDomain(object):
       else:
         discrete_elements.append(list(range(int(dc["elements"][0]), int(dc["elements"][1] + 1))))
 
+    if len(excluded_points):
+      excluded_points = numpy.unique(excluded_points.astype(float), axis=0)
     try:
       (num_total_discrete_values, should_generate_randomly,) = self._analyze_discrete_elements(
         discrete_elements,
